@@ -1,1 +1,401 @@
-//! Shared fixtures of the v_db monitors.
+//! Shared fixtures of the v_db monitors (C01-C06): "fixture F" of DESIGN.md - a collection with
+//! unique / multi-field / array / map-key / optional indexed fields, a text field and an optional
+//! vector; a document model (`BTreeMap<id, FDoc>`) with the documented accept/reject rules; the
+//! bidirectional index<->document audit (C02) used by every other monitor as well.
+
+pub mod audit;
+pub mod driver;
+
+use anda_db::{
+    collection::{Collection, CollectionConfig},
+    database::{AndaDB, DBConfig},
+    error::DBError,
+    index::HnswConfig,
+    schema::{AndaDBSchema, Fv, Vector, bf16},
+    storage::StorageConfig,
+};
+use object_store::ObjectStore;
+use serde::{Deserialize, Serialize};
+use std::collections::{BTreeMap, BTreeSet};
+use std::sync::Arc;
+use vcore::Rng;
+
+pub const DB_NAME: &str = "vdb";
+pub const COLL: &str = "docs";
+pub const DIM: usize = 4;
+
+pub const VOCAB: [&str; 12] = [
+    "apple", "banana", "cherry", "delta", "echo", "forest", "garden", "harbor", "island", "jungle",
+    "kernel", "lemon",
+];
+pub const OOV: [&str; 2] = ["zeppelin", "quixotic"];
+
+#[derive(Debug, Clone, Serialize, Deserialize, PartialEq, AndaDBSchema)]
+pub struct FDoc {
+    pub _id: u64,
+    #[unique]
+    pub uname: String,
+    pub age: u64,
+    pub score: Option<i64>,
+    pub tags: Vec<String>,
+    #[unique]
+    pub codes: Vec<String>,
+    pub attrs: BTreeMap<String, u64>,
+    pub body: String,
+    pub embedding: Vector,
+    pub grp: String,
+    pub slot: u64,
+}
+
+#[derive(Debug, Clone, Copy, PartialEq, Eq)]
+pub struct Cfg {
+    pub compress: i32,
+    pub cache: bool,
+    pub bucket: usize,
+}
+
+impl Cfg {
+    pub fn random(rng: &mut Rng) -> Cfg {
+        Cfg {
+            compress: *rng.pick(&[0, 0, 3]),
+            cache: rng.bool(),
+            bucket: *rng.pick(&[64usize, 64, 256, 1 << 20]),
+        }
+    }
+    pub fn db_config(&self) -> DBConfig {
+        DBConfig {
+            name: DB_NAME.to_string(),
+            description: "verif fixture".to_string(),
+            storage: StorageConfig {
+                compress_level: self.compress,
+                cache_max_capacity: if self.cache { 10000 } else { 0 },
+                bucket_overload_size: self.bucket,
+                ..Default::default()
+            },
+            lock: None,
+        }
+    }
+}
+
+/// Which indexes the open callback makes sure exist (and removes when absent).
+#[derive(Debug, Clone, Copy, PartialEq, Eq, Hash)]
+pub struct IndexSet(pub u16);
+
+impl IndexSet {
+    pub const UNAME: u16 = 1;
+    pub const AGE: u16 = 2;
+    pub const SCORE: u16 = 4;
+    pub const TAGS: u16 = 8;
+    pub const CODES: u16 = 16;
+    pub const ATTRS: u16 = 32;
+    pub const GRPSLOT: u16 = 64;
+    pub const BM25: u16 = 128;
+    pub const HNSW: u16 = 256;
+    pub const ALL: IndexSet = IndexSet(511);
+    pub fn has(&self, f: u16) -> bool {
+        self.0 & f != 0
+    }
+    pub fn btree_list() -> [(u16, &'static [&'static str]); 7] {
+        [
+            (Self::UNAME, &["uname"]),
+            (Self::AGE, &["age"]),
+            (Self::SCORE, &["score"]),
+            (Self::TAGS, &["tags"]),
+            (Self::CODES, &["codes"]),
+            (Self::ATTRS, &["attrs"]),
+            (Self::GRPSLOT, &["grp", "slot"]),
+        ]
+    }
+}
+
+pub async fn connect(store: Arc<dyn ObjectStore>, cfg: &Cfg) -> Result<AndaDB, DBError> {
+    AndaDB::connect(store, cfg.db_config()).await
+}
+
+/// Opens (or creates) the fixture collection, making the registered index set equal to `set`.
+pub async fn open_coll(db: &AndaDB, set: IndexSet) -> Result<Arc<Collection>, DBError> {
+    db.open_or_create_collection(
+        FDoc::schema()?,
+        CollectionConfig {
+            name: COLL.to_string(),
+            description: "fixture F".to_string(),
+        },
+        async move |c: &mut Collection| {
+            for (flag, fields) in IndexSet::btree_list() {
+                if set.has(flag) {
+                    c.create_btree_index_nx(fields).await?;
+                } else {
+                    c.remove_btree_index(fields).await?;
+                }
+            }
+            if set.has(IndexSet::BM25) {
+                c.create_bm25_index_nx(&["body"]).await?;
+            } else {
+                c.remove_bm25_index(&["body"]).await?;
+            }
+            if set.has(IndexSet::HNSW) {
+                c.create_hnsw_index_nx(
+                    "embedding",
+                    HnswConfig {
+                        dimension: DIM,
+                        ..Default::default()
+                    },
+                )
+                .await?;
+            } else {
+                c.remove_hnsw_index("embedding").await?;
+            }
+            Ok(())
+        },
+    )
+    .await
+}
+
+// ---------------------------------------------------------------------------------------------
+// documents
+
+/// `contention`: number of distinct values the unique fields are drawn from (small = conflicts).
+pub fn gen_doc(rng: &mut Rng, contention: u64) -> FDoc {
+    let n_words = 1 + rng.usize(5);
+    let body = (0..n_words)
+        .map(|_| *rng.pick(&VOCAB))
+        .collect::<Vec<_>>()
+        .join(" ");
+    let mut tags: Vec<String> = (0..rng.usize(4))
+        .map(|_| format!("t{}", rng.below(6)))
+        .collect();
+    dedup(&mut tags);
+    let mut codes: Vec<String> = (0..rng.usize(3))
+        .map(|_| format!("c{}", rng.below(contention * 2)))
+        .collect();
+    dedup(&mut codes);
+    let attrs: BTreeMap<String, u64> = (0..rng.usize(3))
+        .map(|_| (format!("a{}", rng.below(5)), rng.below(100)))
+        .collect();
+    FDoc {
+        _id: 0,
+        uname: format!("u{}", rng.below(contention)),
+        age: *rng.pick(&[0u64, 1, 18, 18, 23, 24, 30, 65, 255, 256, u64::MAX]),
+        score: match rng.below(5) {
+            0 => None,
+            1 => Some(0),
+            2 => Some(-(rng.below(50) as i64) - 1),
+            3 => Some(i64::MIN),
+            _ => Some(rng.below(50) as i64),
+        },
+        tags,
+        codes,
+        attrs,
+        body,
+        embedding: gen_vec(rng),
+        grp: format!("g{}", rng.below(2)),
+        slot: rng.below(contention.max(2)),
+    }
+}
+
+fn dedup(v: &mut Vec<String>) {
+    let mut seen = BTreeSet::new();
+    v.retain(|x| seen.insert(x.clone()));
+}
+
+pub fn gen_vec(rng: &mut Rng) -> Vector {
+    (0..DIM)
+        .map(|_| bf16::from_f32((rng.below(64) as f32 - 32.0) / 4.0))
+        .collect()
+}
+
+/// One update request: field name -> value, as handed to `Collection::update`.
+pub type Patch = BTreeMap<String, Fv>;
+
+#[derive(Debug, Clone, Copy, PartialEq, Eq, Hash, PartialOrd, Ord)]
+pub enum Reject {
+    Conflict,
+    Schema,
+    UnknownField,
+    Missing,
+    /// vector of the wrong dimension while a vector index is registered (index-level rejection
+    /// that happens after other index families were already touched)
+    BadVector,
+}
+
+/// Generates an update patch. `bad`: make it invalid in the given way (None = valid by schema;
+/// it may still be rejected for uniqueness, which the model decides).
+pub fn gen_patch(rng: &mut Rng, contention: u64, bad: Option<Reject>) -> Patch {
+    let d = gen_doc(rng, contention);
+    let mut p = Patch::new();
+    let n = 1 + rng.usize(4);
+    for _ in 0..n {
+        match rng.below(10) {
+            0 => {
+                p.insert("uname".into(), Fv::Text(d.uname.clone()));
+            }
+            1 => {
+                p.insert("age".into(), Fv::U64(d.age));
+            }
+            2 => {
+                p.insert("score".into(), d.score.map(Fv::I64).unwrap_or(Fv::Null));
+            }
+            3 => {
+                p.insert("tags".into(), text_array(&d.tags));
+            }
+            4 => {
+                p.insert("codes".into(), text_array(&d.codes));
+            }
+            5 => {
+                p.insert(
+                    "attrs".into(),
+                    Fv::Map(
+                        d.attrs
+                            .iter()
+                            .map(|(k, v)| (k.clone().into(), Fv::U64(*v)))
+                            .collect(),
+                    ),
+                );
+            }
+            6 => {
+                p.insert("body".into(), Fv::Text(d.body.clone()));
+            }
+            7 => {
+                p.insert("embedding".into(), Fv::Vector(d.embedding.clone()));
+            }
+            8 => {
+                p.insert("grp".into(), Fv::Text(d.grp.clone()));
+            }
+            _ => {
+                p.insert("slot".into(), Fv::U64(d.slot));
+            }
+        }
+    }
+    match bad {
+        Some(Reject::Schema) => {
+            // unambiguous schema violations only
+            match rng.below(4) {
+                0 => p.insert("age".into(), Fv::Text("not a number".into())),
+                1 => p.insert("uname".into(), Fv::Null), // Null for a non-Option
+                2 => p.insert("tags".into(), Fv::U64(7)),
+                _ => p.insert("body".into(), Fv::Bool(true)),
+            };
+        }
+        Some(Reject::UnknownField) => {
+            p.insert("no_such_field".into(), Fv::U64(1));
+        }
+        Some(Reject::BadVector) => {
+            p.insert("embedding".into(), Fv::Vector(d.embedding[..DIM - 1].to_vec()));
+        }
+        _ => {}
+    }
+    p
+}
+
+pub fn text_array(v: &[String]) -> Fv {
+    Fv::Array(v.iter().map(|s| Fv::Text(s.clone())).collect())
+}
+
+/// Applies a (schema-valid) patch to a document value. Returns None when the patch carries a
+/// shape this function does not model (then the model must not be consulted).
+pub fn apply_patch(d: &FDoc, p: &Patch) -> Option<FDoc> {
+    let mut n = d.clone();
+    for (k, v) in p {
+        match (k.as_str(), v) {
+            ("uname", Fv::Text(s)) => n.uname = s.clone(),
+            ("age", Fv::U64(x)) => n.age = *x,
+            ("score", Fv::I64(x)) => n.score = Some(*x),
+            ("score", Fv::Null) => n.score = None,
+            ("tags", Fv::Array(a)) => n.tags = texts(a)?,
+            ("codes", Fv::Array(a)) => n.codes = texts(a)?,
+            ("attrs", Fv::Map(m)) => {
+                let mut out = BTreeMap::new();
+                for (k, v) in m {
+                    match (k, v) {
+                        (anda_db::schema::FieldKey::Text(k), Fv::U64(v)) => {
+                            out.insert(k.clone(), *v);
+                        }
+                        _ => return None,
+                    }
+                }
+                n.attrs = out;
+            }
+            ("body", Fv::Text(s)) => n.body = s.clone(),
+            ("embedding", Fv::Vector(v)) => n.embedding = v.clone(),
+            ("grp", Fv::Text(s)) => n.grp = s.clone(),
+            ("slot", Fv::U64(x)) => n.slot = *x,
+            _ => return None,
+        }
+    }
+    Some(n)
+}
+
+fn texts(a: &[Fv]) -> Option<Vec<String>> {
+    a.iter()
+        .map(|v| match v {
+            Fv::Text(s) => Some(s.clone()),
+            _ => None,
+        })
+        .collect()
+}
+
+// ---------------------------------------------------------------------------------------------
+// model
+
+#[derive(Debug, Clone, Default, PartialEq)]
+pub struct Model {
+    pub docs: BTreeMap<u64, FDoc>,
+    pub ext: BTreeMap<String, u64>,
+}
+
+impl Model {
+    /// Uniqueness conflict of candidate `d` (as document `id`, 0 = new) with the live documents,
+    /// restricted to the constraints that are enforced (= unique index registered).
+    pub fn conflicts(&self, id: u64, d: &FDoc, set: IndexSet) -> bool {
+        for (oid, o) in &self.docs {
+            if *oid == id {
+                continue;
+            }
+            if set.has(IndexSet::UNAME) && o.uname == d.uname {
+                return true;
+            }
+            if set.has(IndexSet::CODES) && o.codes.iter().any(|c| d.codes.contains(c)) {
+                return true;
+            }
+            if set.has(IndexSet::GRPSLOT) && o.grp == d.grp && o.slot == d.slot {
+                return true;
+            }
+        }
+        false
+    }
+
+    pub fn max_id(&self) -> u64 {
+        self.docs.keys().next_back().copied().unwrap_or(0)
+    }
+}
+
+/// Would creating the unique indexes of `set` over the documents of `m` fail at backfill?
+pub fn backfill_conflict(m: &Model, set: IndexSet) -> bool {
+    let mut un = BTreeSet::new();
+    let mut co = BTreeSet::new();
+    let mut gs = BTreeSet::new();
+    for d in m.docs.values() {
+        if set.has(IndexSet::UNAME) && !un.insert(d.uname.clone()) {
+            return true;
+        }
+        if set.has(IndexSet::CODES) {
+            for c in &d.codes {
+                if !co.insert(c.clone()) {
+                    return true;
+                }
+            }
+        }
+        if set.has(IndexSet::GRPSLOT) && !gs.insert((d.grp.clone(), d.slot)) {
+            return true;
+        }
+    }
+    false
+}
+
+pub fn err_kind(e: &DBError) -> String {
+    let s = format!("{e:?}");
+    s.split(|c: char| !c.is_alphanumeric())
+        .next()
+        .unwrap_or("")
+        .to_string()
+}
